@@ -191,7 +191,7 @@ def run(tier, seed, replay=None):
             cs_ = [c.clone() for c in b.cores]; cs_[-1] = torch.zeros_like(cs_[-1])
             for p_ in range(cs_[-1].shape[0]): cs_[-1][p_, 0, 0] = float(p_ + 1); cs_[-1][p_, 1, 0] = -float(p_ + 1)
             b = torchtt.TT(cs_)
-        gk = rng.choice(["none", "none", "none", "random", "random", "zeros", "0*b", "b", "random*1e6", "random*1e-9", "zero-core"])
+        gk = rng.choice(["none", "none", "none", "random", "random", "zeros", "0*b", "b", "random*1e6", "random*1e-9", "zero-core", "loose-solution", "loose-solution"])
         if i in (2, 6):                       # engineered: zero-sum right-hand side, default start, iterative local solves (the local right-hand side of the first core vanishes: tolerance 0)
             gk = "none"; max_full = 0; local = "bicgstab" if i == 2 else "gmres"; prec = None; band = None
         guess = None
@@ -200,6 +200,9 @@ def run(tier, seed, replay=None):
             if gk == "zeros": guess = torchtt.zeros(N, dtype=torch.float64)
             elif gk == "0*b": guess = 0 * b
             elif gk == "b": guess = b.clone()
+            elif gk == "loose-solution":          # refinement: the solution of a looser solve (relative residual between eps and sqrt(eps)) as the guess of the tight one
+                try: guess = torchtt.solvers.amen_solve(A, b, eps=min(3e-2, 0.3 * math.sqrt(eps)), nswp=30, verbose=False, use_cpp=False)
+                except Exception: pass
             elif gk == "random*1e6": guess = 1e6 * guess
             elif gk == "random*1e-9": guess = 1e-9 * guess
             elif gk == "zero-core":
